@@ -54,6 +54,34 @@ def fresh_framer(fe):
     return lemma
 
 
+def private_state(kind):
+    """"each connection's framing state is private to it": two framers built by the real constructor (what every connection gets); one of
+    them receives a complete frame and has its header filled in place by checkFrame, is advanced and reset - the other one's buffer and
+    header are what they were (no object behind the two is shared)"""
+    from . import framers as F
+    from pyvc.unit import LoopAnn
+
+    def lemma(E):
+        rec = F.Rec()
+        uid = E.choice('unit', [1, 17, 200])
+        pdu = [3, 0, 7, 0, E.choice('count', [1, 2, 9])]
+        frame = F.concrete_frame(kind, uid, pdu, 0x0A01)
+        size = lambda fc, buf: len(frame)
+        f0, f1 = F.fresh_framer(E, kind, rec, size_of=size), F.fresh_framer(E, kind, rec, size_of=size)
+        snap = lambda f: (E.get(f, '_buffer'), dict(E.get(f, '_header')))
+        b0, h0 = snap(f0)
+        b1, h1 = snap(f1)
+        same = lambda a, b: (a == b) if E.mode != 'symbolic' else E.same_state(a, b)
+        E.method(f0, 'addToFrame', E.as_bytes(frame))
+        ok = E.method(f0, 'checkFrame')
+        E.prove('private:the-frame-checks-out-on-the-framer-that-received-it', L.truth(ok))
+        E.prove('private:the-other-connections-framer-is-untouched[after checkFrame]', L.And(L.eq(E.get(f1, '_buffer'), b1), same(dict(E.get(f1, '_header')), h1)))
+        E.method(f0, 'advanceFrame')
+        E.method(f0, 'resetFrame')
+        E.prove('private:the-other-connections-framer-is-untouched[after reset]', L.And(L.eq(E.get(f1, '_buffer'), b1), same(dict(E.get(f1, '_header')), h1)))
+    return lemma
+
+
 def own(E, label, result, **kw):
     ok, detail = result
     E.prove(label, ok, backend='ownership', detail=detail, **kw)
@@ -154,6 +182,10 @@ def get_units():
         us.append(Unit('%s/fresh_framer.%s' % (PROP, fe), fresh_framer(fe), [PROP], functions=[fn]))
     # same connection fate: on every stream front-end a framing error (any exception out of processIncomingPacket) ends that connection - the
     # threaded handler stops, the asyncio handler closes its transport, Twisted lets the exception leave dataReceived (the reactor drops the connection)
+    from . import framers as F, codec_contracts as K
+    for kind in ('socket', 'rtu', 'ascii', 'binary'):
+        us.append(Unit('%s/framer.private.%s' % (PROP, kind), private_state(kind), [PROP],
+                       functions=[F.QUAL[kind] + '.' + m for m in ('__init__', 'checkFrame', 'advanceFrame', 'resetFrame')]))
     from .C12 import sync_loop, asyncio_loop, twisted_entry
     from pyvc.unit import LoopAnn
     q = S.SY + 'ModbusConnectedRequestHandler.handle'
